@@ -95,6 +95,60 @@ def mutate(toks, op, rnd):
     return "".join(x[1] for x in t)
 
 
+# ---------------------------------------------------------------- margin sweep
+# every kind of expression / statement / item, placed where the remaining width runs out, at EVERY max_width:
+# an unchecked `width - k` somewhere in a rewriter shows up at the few widths where fewer than k columns are left
+SWEEP_EXPRS = [
+    "async move {\n        first_statement().await;\n        second_statement()\n    }", "async {\n        a();\n        b()\n    }",
+    "unsafe {\n        a();\n        b()\n    }", "loop {\n        a();\n        break b();\n    }", "|x, y| {\n        a(x);\n        b(y)\n    }",
+    "move |x: u32| -> u32 { x + 1 }", "match value {\n        A => 1,\n        B(x) if x > 2 => {\n            a();\n            b()\n        }\n        _ => 0,\n    }",
+    "if a_condition { b_value } else { c_value }", "if let Some(x) = y { x } else if z { 1 } else { 2 }", "receiver.first_call().second(|x| x + 1).third::<u8>()?.field.fourth()",
+    "Foo { alpha: 1, beta: two(), ..rest }", "Foo::Bar { alpha, beta }", "[first_element, second_element, third_element]", "[0u8; 1024]", "(first, second, third)",
+    "a_value + b_value * c_value - d_value / e_value", "value as u64 as usize", "&mut *pointer_value", "start_value..=end_value", "vec![element; count]",
+    "format!(\"{} and {}\", first, second)", "future_value.await?", "<Type as Trait>::function(argument)", "function::<First, Second>(argument)",
+    "\"a rather long string literal that cannot be broken anywhere\"", "r#\"raw \"string\" literal\"#", "b\"bytes\"", "-negated_value", "!inverted_value",
+    "array[index_one][index_two]", "const { 1 + 2 }", "'label: loop {\n        break 'label 1;\n    }", "while let Some(x) = iterator.next() {\n        a(x);\n    }",
+    "for element in collection.iter() {\n        a(element);\n    }", "some_function(first_argument, second_argument, |x| x.method(), third)", "return_value?", "x.0.1.2",
+    "&&double_ref", "*deref_value = other", "a == b && c != d || e < f", "a << 2 | b >> 3 & c ^ d", "Some(Ok(Box::new(inner_value)))", "closure_taking(|| async move { a().await })",
+    "match x { 0..=9 => \"digit\", _ => \"other\" }", "if let Some(a) = b && let Ok(c) = d { a + c } else { 0 }", "&raw const place.field", "loop {}", "{}", "()",
+]
+SWEEP_PATS = ["x", "(first_binding_name, second_binding_name)", "Wrapper { inner_field_name, another_field_name: renamed }", "mut accumulated_result_value_with_a_long_name"]
+SWEEP_ITEMS = [
+    "pub(crate) async unsafe fn name<'a, T: Bound + 'a, const N: usize>(first: &'a T, second: [u8; N]) -> Result<T, Error> where T: Other<Assoc = u8> { body() }",
+    "impl<'a, T: ?Sized + Trait<Item = u8>> Trait for Type<'a, T> where T: 'a { type Item = u8; const C: usize = 1; fn f(&self) -> u8 { 1 } }",
+    "pub trait Name<T>: Super + Other<T> where T: Clone { type Assoc: Bound + ?Sized; const C: T; fn required(&self, x: T) -> Self::Assoc; fn provided(&self) {} }",
+    "#[derive(Debug, Clone)] pub enum E<T> { Unit, Tuple(u8, T), Struct { a: u8, b: T }, Disc = 3 }", "pub struct S<T>(pub T, pub(crate) u8) where T: Copy;",
+    "pub static mut GLOBAL_VALUE: [u8; 4] = [1, 2, 3, 4];", "pub type Alias<'a, T> = Box<dyn Fn(&'a T) -> Result<T, Error> + Send + Sync + 'a>;",
+    "extern \"C\" { fn foreign(a: u8, ...) -> u8; static X: u8; type Opaque; }", "macro_rules! m { ($a:expr, $($b:tt)*) => { $a + m!($($b)*) }; () => { 0 }; }",
+    "use a::{b::{c, d as e}, f::*, g::{self, h}};", "pub union U { a: u8, b: u32 }", "impl !Send for Type {}", "unsafe impl<T> Sync for Type<T> where T: Send {}",
+    "fn f(self: Box<Self>, (a, b): (u8, u8), Wrapper { x, .. }: Wrapper, _: impl Fn(u8) -> u8 + 'static) {}", "const fn c() -> u8 { 1 }", "pub mod inline { pub fn f() {} }",
+]
+
+
+def sweep_cases(tier, seed):
+    out = []
+    widths = list(range(20, 131))
+    if tier != "thorough":
+        widths = [w for w in widths if (w + seed) % 3 == 0]
+    for ei, e in enumerate(SWEEP_EXPRS):
+        for pi, pat in enumerate(SWEEP_PATS):
+            if tier != "thorough" and (ei + pi + seed) % 2:
+                continue
+            for ctx in (0, 1):
+                body = "let %s = %s;" % (pat, e) if ctx == 0 else "outer_function_call(%s, %s)" % (pat.split(" ")[-1].strip("(){}") or "x", e)
+                text = "fn wrapper() {\n    %s\n}\n" % body if ctx == 0 else "fn wrapper() {\n    if c {\n        %s;\n    }\n}\n" % body
+                for w in widths:
+                    out.append(({"text": text, "config": [["max_width", str(w)], ["edition", "2024"]], "again": False, "lex": False}, ("sweep/e%d.p%d.c%d" % (ei, pi, ctx), w)))
+    for ii, it in enumerate(SWEEP_ITEMS):
+        for nest in (0, 2):
+            text = it + "\n"
+            for _ in range(nest):
+                text = "mod m {\n" + text + "}\n"
+            for w in widths:
+                out.append(({"text": text, "config": [["max_width", str(w)], ["edition", "2024"]], "again": False, "lex": False}, ("sweep/i%d.n%d" % (ii, nest), w)))
+    return out
+
+
 def loc_key(at):
     at = at or "?"
     at = re.sub(r"^.*/registry/src/[^/]+/", "", at)
@@ -135,6 +189,10 @@ def search(rep, tier, seed):
                 continue         # "a usable page: at least five indentation steps wide"
             cases.append({"text": text, "config": pool.merged(p["header"], over), "again": False, "lex": False})
             meta.append((p["id"], k, op, w, ts, ht))
+    n_mut = len(cases)
+    for c, (sid, w) in sweep_cases(tier, seed):
+        cases.append(c)
+        meta.append((sid, 0, "sweep", str(w), "4", "false"))
     res = common.run_vh_pool("pool", cases, per_case_timeout=12)
     found = 0
     outcome = {"ok": 0, "rejected": 0, "panic": 0, "timeout": 0, "crash": 0}
@@ -159,10 +217,13 @@ def search(rep, tier, seed):
             outcome["ok"] += 1
         else:
             outcome["rejected"] += 1
-    rep.coverage["mutants_run"] = len(cases)
+    rep.coverage["mutants_run"] = n_mut
+    rep.coverage["margin_sweep_runs"] = len(cases) - n_mut
+    rep.coverage["margin_sweep_rule"] = "%d expression forms x %d binding patterns x {let statement, call argument in a nested block} and %d item forms x {top level, two modules deep}, each at every max_width 20..130 (quick: every third width and half of the combinations, selected by the seed), edition 2024" % (len(SWEEP_EXPRS), len(SWEEP_PATS), len(SWEEP_ITEMS))
     rep.coverage["mutant_outcomes"] = outcome
     rep.coverage["search_rule"] = "pool programs x (original + %d token-level mutants: delete / duplicate / swap / truncate / unbalance a delimiter / insert non-ASCII / wrap in 4..12 parentheses, deterministic per program) x rotating max_width %s x tab_spaces %s x hard_tabs, error_on_line_overflow and error_on_unformatted on (so reports are rendered); thorough: all, quick: the 1/%d slice selected by the seed; in-process in worker processes, 12 s per case; a panic is keyed by its source location" % (K, WIDTHS, TABS, MOD)
-    found += binary_probe(rep, cases[:: max(1, len(cases) // 60)])
+    found += binary_probe(rep, cases[:n_mut][:: max(1, n_mut // 60)])
+    found += module_probe(rep)
     return found
 
 
@@ -190,6 +251,42 @@ def binary_probe(rep, sample):
                              "the rustfmt binary exited with status %d: %s" % (p.returncode, err[-200:])):
                 found += 1
     rep.coverage["binary_runs"] = n
+    return found
+
+
+def module_probe(rep):
+    """fatal lexer errors, unclosed delimiters and non-UTF-8 bytes in an OUT-OF-LINE module file (plain and #[path]):
+    the binary must end with status 0 or 1"""
+    import shutil
+    import subprocess
+    env = common.rust_env()
+    env.pop("CARGO_TARGET_DIR", None)
+    d = os.path.join(common.CACHE, "c16mod")
+    found = n = 0
+    bads = {"unterminated_string": b"pub fn f() { let s = \"abc; }\n", "unterminated_block_comment": b"pub fn f() { /* abc\n",
+            "unterminated_raw_string": b"pub fn f() { let s = r#\"abc; }\n", "unclosed_delimiter": b"pub fn f() { (\n", "not_utf8": b"pub fn f() {} // \xff\xfe\n",
+            "unterminated_char": b"pub fn f() { let c = 'ab; }\n", "empty": b"", "stray_close": b"}\n"}
+    for name, body in bads.items():
+        for decl in ("mod bad;\n", "#[path = \"sub/other.rs\"]\nmod bad;\n", "mod outer {\n    mod bad;\n}\n"):
+            shutil.rmtree(d, ignore_errors=True)
+            os.makedirs(os.path.join(d, "sub"))
+            os.makedirs(os.path.join(d, "outer"))
+            open(os.path.join(d, "lib.rs"), "w").write(decl + "fn  g( ){}\n")
+            target = "sub/other.rs" if "path" in decl else ("outer/bad.rs" if "outer" in decl else "bad.rs")
+            open(os.path.join(d, target), "wb").write(body)
+            for args in ([], ["--check"], ["--emit", "stdout"]):
+                try:
+                    p = subprocess.run([common.bin_path("rustfmt")] + args + ["lib.rs"], cwd=d, capture_output=True, env=env, timeout=30)
+                except subprocess.TimeoutExpired:
+                    continue
+                n += 1
+                if p.returncode not in (0, 1):
+                    err = p.stderr.decode("utf-8", "replace")
+                    if rep.violation("module_exit_status:%s" % name, {"module_file": body.decode("latin-1"), "declaration": decl, "args": args, "rc": p.returncode, "stderr": err[-600:]},
+                                     "rustfmt %s lib.rs with a module file holding %s (%r) exited with status %d: %s" % (" ".join(args), name, decl.strip(), p.returncode, err[-160:])):
+                        found += 1
+    shutil.rmtree(d, ignore_errors=True)
+    rep.coverage["module_probe_runs"] = n
     return found
 
 
